@@ -497,6 +497,11 @@ def gen_addition(rng, t, i, malformed=0.0, kinds=("def", "trans", "pass", "displ
         t.charcell.setdefault(c, d[0])
         t.attrs.setdefault(c, op)
         return "%s%s %s %s" % (rng.choice(["", "", "noback ", "nofor "]), op, char_str(c), cells_str(d)), kind
+    if kind == "trans" and rng.random() < 0.3:
+        # ONE character the table does not know yet and several cells: linking the rule allocates the character record
+        # (64 bytes) after the rule itself - a growth of the image may fall exactly between the two (seeded change C15-X
+        # kept a pointer to the rule across it)
+        return "always %s %s" % (char_str(0x0900 + (i % 0x600)), cells_str([rng.choice(cells) for _ in range(rng.randint(2, 3))])), kind
     if kind == "trans":
         tmp = Tbl()
         tmp.charcell, tmp.attrs = t.charcell, t.attrs
